@@ -149,6 +149,8 @@ def exc_class(exc, connecting=False):
     name, msg = type(exc).__name__, str(exc)
     if in_client_next(exc):
         return "rxerror"
+    if isinstance(exc, OSError) and in_function(exc, "send"):
+        return "senderror"
     if isinstance(exc, AssertionError):
         for prefix, cls in (CONNECT_MSG if connecting else RUN_MSG):
             if msg.startswith(prefix):
@@ -597,15 +599,49 @@ class C13(Suite):
             yield {"kind": "proxy", "depth": depth, "multiple": multiple, "uses": uses, "faults": faults,
                    "ident": rng.random() < 0.5}
         yield from self.open_phase_cases(tier, rng, tagsets)
-        if not quick:
-            for _ in range(6):
+        yield from self.idle_and_identity_cases(tier, rng, tagsets)
+        if True:
+            for _ in range(1 if quick else 6):
                 yield {"kind": "poll", "depth": rng.choice([1, 2]), "multiple": 0, "tags": rng.choice(tagsets),
-                       "events": 9,
+                       "events": 6 if quick else 9,
                        "faults": [{"dir": "s2c", "k": rng.randrange(60, 700), "mode": "eof"}, None][:1]
                                  + [{"dir": "s2c", "k": rng.randrange(0, 500), "mode": "eof"},
-                                    {"dir": "s2c", "k": rng.randrange(100, 900), "mode": rng.choice(["eof", "quiet"])},
+                                    {"dir": "s2c", "k": rng.randrange(100, 900), "mode": "eof" if quick else rng.choice(["eof", "quiet"])},
                                     None],
                        "ident": rng.random() < 0.5}
+
+    def idle_and_identity_cases(self, tier, rng, tagsets):
+        """(a) the device aborts (TCP RST) the idle connection between two uses: the next use's first send fails with
+        nothing outstanding; (b) `via.list_identity()` on an established gateway with its reply cut / lost; each
+        followed by a use against the healthy device"""
+        quick = tier == "quick"
+        for i in range(3 if quick else 12):
+            ts = tagsets[i % len(tagsets)]
+            yield {"kind": "proxy", "depth": rng.choice([1, 2, 3]), "multiple": rng.choice([0, 0, 250]),
+                   "uses": [ts, ts, tagsets[(i + 1) % len(tagsets)]], "faults": [None, None], "ident": i % 2 == 1,
+                   "abort_after": [0], "phase": "idle-abort"}
+        for ident in (False, True):
+            ts = tagsets[0]
+            uses = [ts, "I", ts]
+            for _attempt in range(5):
+                ref = {"kind": "proxy", "depth": 2, "multiple": 0, "uses": uses, "faults": [None], "ident": ident}
+                out = self.impl(ref)
+                ends = net.frame_ends(b"".join(self.relay.conns[0]["s2c"])) if self.relay.conns else []
+                if all(t.endswith(";ok") for t in out.split("#")[0].split("|")) and len(ends) >= 2 + len(ts):
+                    break
+            else:
+                raise RuntimeError("no fault-free reference run with list_identity: " + out)
+            idx = 1 + (1 if ident else 0) + len(ts)           # the frame answering via.list_identity()
+            lo, hi = ends[idx - 1], ends[idx]
+            ks = sorted({lo, lo + 1, lo + 3, lo + 24, (lo + hi) // 2, hi - 1}) if quick else range(lo, hi)
+            if quick and ident:
+                ks = ks[:3]
+            for k in ks:
+                yield {"kind": "proxy", "depth": 2, "multiple": 0, "uses": uses, "ident": ident,
+                       "faults": [{"dir": "s2c", "k": k, "mode": "eof"}, None], "phase": "identity"}
+            if not (quick and ident):
+                yield {"kind": "proxy", "depth": 2, "multiple": 0, "uses": uses, "ident": ident,
+                       "faults": [{"dir": "drop", "frames": [idx]}, None], "phase": "identity"}
 
     def open_reference(self, tagset):
         """a fault-free first use of an identifying proxy: where the open phase (Register + List Identity) ends in
@@ -636,7 +672,7 @@ class C13(Suite):
         if quick:
             marks = {0, 1, 2, 4, reg_end - 1, reg_end, reg_end + 1, reg_end + 2, reg_end + 4, reg_end + 23,
                      reg_end + 24, reg_end + 25, open_end - 1, open_end, open_end + 1, open_end + 24, first_data_end}
-            ks = sorted(marks | set(rng.sample(list(span), 10)))
+            ks = sorted(marks | set(rng.sample(list(span), 5)))
         else:
             ks = list(span)
         for k in ks:
@@ -685,7 +721,8 @@ class C13(Suite):
             spec = f" {sum(len(b) for b in obs['s2c']) // 2}:{whole}" if self.spec_applies(c) else ""
             return f"crx {api} {depth} 0 {self.issued_token(issued)} {','.join(evs)}{spec}"
         # proxy / poll
-        uses = "|".join(self.issued_token(self.issued_for(ops, False, c["multiple"])) for ops in obs["uses"])
+        uses = "|".join("I" if ops == "I" else self.issued_token(self.issued_for(ops, False, c["multiple"]))
+                        for ops in obs["uses"])
         conns = "|".join(",".join([b for b in blocks if b] + [term]) for blocks, term in obs["conns"])
         fmt = "e" if kind == "poll" else "n"
         return f"prx {fmt} {1 if c.get('ident') else 0} {c['depth']} {uses or '-'} {conns or 'Q'}"
@@ -801,24 +838,36 @@ class C13(Suite):
         outs, uses, allvals = [], [], []
         c["_obs"] = None
         try:
-            for tagset in c["uses"]:
-                tags = [self.RELAY_OPS[i][0] for i in tagset]
-                uses.append([["t", t] for t in tags])
+            for u, tagset in enumerate(c["uses"]):
+                identity = tagset == "I"
+                tags = [] if identity else [self.RELAY_OPS[i][0] for i in tagset]
+                uses.append("I" if identity else [["t", t] for t in tags])
                 before = self.relay.count
                 vals, n = [], None
                 try:
-                    with via:
-                        n = self.relay.count - 1
-                        for v in via.read(tags):
-                            vals.append(v if v is None or v is True else list(v))
-                    outs.append(f"c{n}:{len(vals)};ok")
+                    if identity:
+                        try:
+                            via.list_identity()          # @maintain_gateway: runs inside `with via:`
+                        finally:
+                            n = self.relay.count - 1 if self.relay.count else None
+                        outs.append(f"c{n}:id;ok")
+                    else:
+                        with via:
+                            n = self.relay.count - 1
+                            for v in via.read(tags):
+                                vals.append(v if v is None or v is True else list(v))
+                        outs.append(f"c{n}:{len(vals)};ok")
                 except Exception as exc:
-                    if n is None:
+                    if in_function(exc, "open_gateway") or n is None:
                         n = self.relay.count - 1
                         outs.append(f"c{n}:{open_failure(exc)}" if self.relay.count > before else "refused")
+                    elif identity:
+                        outs.append(f"c{n}:id;{open_failure(exc).split(':', 1)[1]}")
                     else:
                         outs.append(f"c{n}:{len(vals)};{exc_class(exc)}")
-                    assert via.gateway is None or True
+                if u in c.get("abort_after", ()) and self.relay.count:
+                    self.relay.abort(self.relay.count - 1)      # the device aborts the idle connection
+                    time.sleep(0.03)
                 allvals.append({"vals": vals, "gateway_after": via.gateway is not None})
         finally:
             via.close_gateway()
@@ -831,7 +880,7 @@ class C13(Suite):
         conns = []
         for i, rec in enumerate(list(self.relay.conns)):
             f = faults[i] if i < len(faults) else None
-            term = "E" if f and f.get("mode") == "eof" else "Q"
+            term = "R" if rec.get("aborted") else "E" if f and f.get("mode") == "eof" else "Q"
             conns.append(([b.hex() for b in rec["s2c"]], term))
         return conns
 
@@ -977,7 +1026,7 @@ class C13(Suite):
         outs = out.split("|") if out else []
         failed_before, last_conn, used_failed = False, None, set()
         for u, (tok, info) in enumerate(zip(outs, obs.get("vals", []))):
-            tags = [t for _, t in obs["uses"][u]]
+            tags = [] if obs["uses"][u] == "I" else [t for _, t in obs["uses"][u]]
             if tok == "refused":
                 return f"use {u}: no connection attempted"
             conn = int(tok[1:tok.index(":")])
@@ -1037,6 +1086,9 @@ class C13(Suite):
             return f"relay:{c['dir']}:{c['mode']}:{'multi' if c['multiple'] else 'single'}:{end}"
         toks = out.split("|")
         bad = sum(1 for t in toks if not t.endswith(";ok"))
+        if c.get("phase") in ("idle-abort", "identity"):
+            return f"proxy-{c['phase']}:{'ident' if c.get('ident') else 'noident'}:" + "/".join(
+                t.split(":", 1)[1].split(";")[-1] if ":" in t else t for t in toks)
         if c.get("phase") == "open":
             first = toks[0].split(":", 1)[1] if ":" in toks[0] else toks[0]
             first = first.split(";")[-1] if ";" in first else first
